@@ -1,12 +1,12 @@
 """C20 - the live terminal shows the latest text of every line, within its width."""
 import json
 import os
-from vf import Inconclusive, parallel, require_clean, vfj_lines
+from vf import Inconclusive, parallel, require_clean, tlaps, vfj_lines
 
 CLAIM = {
     "text": "A VT100-subset terminal emulator written in TLA+ (Term.tla: a state machine over the byte stream - UTF-8 runes, wrap flag, LF/CR, ESC[nA, ESC[0K, cursor visibility, zero-width colour sequences) is the reference. TLC exhaustively checks the transcription of multiterm.TermWriter and WriteLineNoWrap composed with it (TermWriter.tla: every update history up to the bound over lines 0..3 and texts {empty, a, abc, coloured ab, multi-byte}, widths 1..4, trimming on/off, LF with and without implied CR) against the screen oracle after EVERY call: each line shows exactly (the width-trimmed visible part of) its latest text, rows above/below untouched, nothing wrapped, no sequence cut, cursor parked below the last line and visible after Close; likewise the buffered writer (TermBuffered.tla) and the trimming law for all token strings (TermTrim_MC). Colour sequences have no maximal length in the property's domain: TermTrimSgr_MC replaces every colour sequence of every token string by one of n runes (n up to 64 quick / every n in 3..67 thorough: 24-bit colours, stacked attributes, foreground + background) and decides that the oracle, the cut and the resulting terminal row do not depend on n, the writer models are also checked on a pool of texts with 15/18/43-rune sequences (TextsSgr), and the design 'scan for the closing m bounded to k runes' (CutBounded) is refuted by TLC for k = 12, 32 (24, 62) as soon as a longer sequence occurs while it passes when every sequence fits. The real code is bound independently of the transcription: the bytes multiterm.New(), the buffered writer from cmd/helpers.BuildVTerm and WriteLineNoWrap really write to file descriptor 1 (TLC-enumerated histories with the model's predicted screens, and seeded random histories up to 200 updates, widths 1..120, gaps, colours incl. sequences of every length 3..72 runes, multi-byte runes; WriteLineNoWrap with a sequence of every length 3..48 (90) before/inside/after text) are interpreted by the TLA+ emulator in TLC and judged by the same oracle after every update and after Close.",
     "note": "Assumptions: terminal at least as tall as the lines used (no scrolling); every rune one cell wide (no CJK/combining); texts are printable runes plus complete ESC[...m sequences; erase at the deferred-wrap position erases nothing; LF implies CR (tty default) for the verdict; without trimming only texts that fit the width are in the domain of the in-place writer. Exhaustive only within the stated bounds, random beyond. Trusted: the emulator as a faithful model of a terminal, TLC, the fd-level capture of the harness.",
-    "technique": "TLA+ model checking (TLC) of writer-composed-with-terminal-emulator with a refuted negative control (bounded colour-sequence scan) + model-behaviour replay + trace validation of real stdout bytes through the TLA+ emulator",
+    "technique": "TLA+ model checking (TLC) of writer-composed-with-terminal-emulator with a refuted negative control (bounded colour-sequence scan) + model-behaviour replay + trace validation of real stdout bytes through the TLA+ emulator; TLAPS proof of the row bookkeeping (TermCursor) for any number of updates",
 }
 
 WRITER_INVS = "Screen Parked Emulated Belief MaxLineOK"
@@ -259,7 +259,7 @@ def check(run):
         results = parallel([lambda p=p, i=i: validate_part(run, p[0], "Term_Trace B2 part %d" % i) for i, p in enumerate(parts)], 4)
         return stats, parts, results
 
-    (_, _, _, b1res, b2res) = parallel([b3_writer, b3_small, b3_sgr, b1, b2], 5)
+    (_, _, _, b1res, b2res, _) = parallel([b3_writer, b3_small, b3_sgr, b1, b2, lambda: tlaps(run, "TermCursor")], 6)
 
     # ------------------------------------------------------------------ verdicts
     for origin, (stats, parts, results) in (("b1", b1res), ("b2", b2res)):
